@@ -28,5 +28,24 @@ size_t zv_analyzeEntropy(void* dst, size_t maxDst, int level, const void* sample
 size_t zv_addEntropy_advanced(void* dictBuffer, size_t contentSize, size_t cap, const void* samples, const size_t* sizes,
                               unsigned nb, ZDICT_params_t params);
 unsigned zv_hbuffsize(void);
+
+/* round 2: segment selection and dictionary building, run on the real static functions */
+typedef struct { unsigned begin, end, score; } zv_seg;
+typedef struct { int err; unsigned long long nbDmers; unsigned long long fh; size_t tail; int dirty; zv_seg seg; } zv_fres;
+/* FASTCOVER_ctx_init (split point 1.0) + FASTCOVER_buildDictionary into dict[0..cap); fh = FNV of the frequency table
+ * right after ctx_init; dirty = segmentFreqs not all zero afterwards */
+zv_fres zv_fast_build(const void* samples, const size_t* sizes, unsigned nb, unsigned d, unsigned f, unsigned accel,
+                      unsigned k, size_t cap, unsigned char* dict);
+/* FASTCOVER_ctx_init + one FASTCOVER_selectSegment(begin, end); fh = FNV of the frequency table afterwards */
+zv_fres zv_fast_select(const void* samples, const size_t* sizes, unsigned nb, unsigned d, unsigned f, unsigned accel,
+                       unsigned k, unsigned begin, unsigned end);
+typedef struct { int err; unsigned long long nbDmers; unsigned* keys; unsigned* fvals; unsigned* fafter; size_t tail; zv_seg seg; } zv_cres;
+/* COVER_ctx_init (split point 1.0); keys[p] = dmerAt[p], fvals[p] = freqs[dmerAt[p]] before; then COVER_buildDictionary
+ * (doBuild) or one COVER_selectSegment(begin, end) (fafter[p] = freqs[dmerAt[p]] afterwards) */
+zv_cres zv_cover_run(const void* samples, const size_t* sizes, unsigned nb, unsigned d, unsigned k, size_t cap,
+                     unsigned char* dict, int doBuild, unsigned begin, unsigned end);
+size_t zv_lower_bound(const size_t* offs, size_t first, size_t count, size_t value);   /* index of the result pointer */
+int zv_map_init_log(unsigned size);               /* sizeLog, or -1 when COVER_map_init fails */
+unsigned zv_map_hash(unsigned sizeLog, unsigned key);
 unsigned long long zv_fnv(const void* p, size_t n);
 #endif
